@@ -201,6 +201,11 @@ func (s *Sys) Ops() []Op {
 		ops = append(ops, Op{Kind: "discover", MAC: m, CID: "00636c69656e74"})
 		if i == 0 {
 			ops = append(ops, Op{Kind: "request", MAC: m, CID: "01" + m})
+			if len(s.conf.MACs) > 1 && len(s.conf.MACs[1]) == 12 {
+				// ... and one that spells ANOTHER client's hardware address
+				ops = append(ops, Op{Kind: "discover", MAC: m, CID: "01" + s.conf.MACs[1]})
+				ops = append(ops, Op{Kind: "request", MAC: m, CID: "01" + s.conf.MACs[1]})
+			}
 		}
 	}
 	if s.ro {
@@ -1281,4 +1286,6 @@ func Crash(r *ev.Run, id string, budget time.Duration, small bool) {
 		})
 		r.Sample("history-graph", map[string]interface{}{"plugin": "range", "config": c, "states": res.States, "transitions": res.Transitions, "depth": res.Depth, "fixpoint": res.Fixpoint})
 	}
+	// ... and requests carrying every other option code in seven payload shapes
+	irrelevantOptions(r, id)
 }
